@@ -1934,6 +1934,55 @@ pub fn finalize_subscribe_on_scenario(delayed: bool, bound: u32, max_execs: u64)
   }
 }
 
+/// a cold synchronous source behind subscribe_on / delay_subscription: the whole
+/// emission happens inside the scheduled task; another thread unsubscribes
+/// while that task may be anywhere. Whatever was delivered is a prefix of the
+/// source's sequence, a completion only after all of its items, and nothing
+/// once unsubscribe() has returned.
+pub fn cold_subscribe_on_scenario(prop: &str, delayed: bool, bound: u32, max_execs: u64) -> Scenario {
+  let prop = prop.to_string();
+  let opname = if delayed { "delay_subscription" } else { "subscribe_on" };
+  Scenario {
+    name: format!("from_iter([1,2,3]).{opname} || unsubscribe c<={bound}"),
+    sig: opname.into(),
+    bound,
+    max_execs,
+    body: Arc::new(move |ctx: &Arc<Ctx>, out: &mut Out| {
+      let src = observable::from_iter(vec![1 as Item, 2, 3]).on_error_map(|e: std::convert::Infallible| -> Er { match e {} });
+      let p0 = TProbe::new("p0", ctx);
+      let pipe: Pipe = if delayed {
+        src.delay_subscription(ticks(1), pool_scheduler()).box_it()
+      } else {
+        src.subscribe_on(pool_scheduler()).box_it()
+      };
+      let sub0 = pipe.actual_subscribe(p0.clone());
+      let u = shuttle::thread::spawn(move || sub0.unsubscribe());
+      u.join().unwrap();
+      let at = ctx.stamp();
+      drain_pool(true);
+      let full = vec![Note::N(1), Note::N(2), Note::N(3), Note::C];
+      let got = p0.notes();
+      if got.len() > full.len() || got[..] != full[..got.len()] {
+        ctx.fail(
+          format!("{prop}:not-a-prefix:{opname}"),
+          format!("the source delivers [1 2 3 |]; the subscriber saw [{}]", fmt_notes(&got)),
+        );
+      }
+      for e in p0.evs() {
+        if e.enter > at {
+          ctx.fail(
+            format!("{prop}:delivered-after-unsubscribe:{opname}"),
+            format!("{:?} was delivered after unsubscribe() had returned", e.note),
+          );
+        }
+      }
+      out.delivered = got.len() as u64 + 1;
+      out.note(&got);
+      out.trace.push(format!("p0 [{}]", fmt_notes(&got)));
+    }),
+  }
+}
+
 /// share_threads: A joins while B joins and leaves again
 pub fn share_leave_scenario(bound: u32, max_execs: u64) -> Scenario {
   Scenario {
@@ -2494,9 +2543,12 @@ pub fn plan(prop: &str, tier: Tier) -> Option<Plan> {
           sc.push(script_scenario("C07", shape, s, Oracle::Serialise, if n >= 3 { c } else { c + 1 }, CAP));
         }
       }
+      for delayed in [false, true] {
+        sc.push(cold_subscribe_on_scenario("C07", delayed, c + 2, CAP));
+      }
       Some(Plan {
         scenarios: sc,
-        rule: "observe_on_threads and delay_threads over a SubjectThreads with every scheduled notification its own controlled pool task (a k-worker pool that may run, and overlap, them in any order): one or two emitting threads, optionally a retain() on the source (which asks every subscriber is_finished()); every schedule within the preemption bound; oracle once every task has run: nothing invented or duplicated, and every item of a source that neither terminated nor was unsubscribed has been delivered (the order in which independent tasks deliver is engine E1's known finding and is not asserted here); no overlapping callbacks, grammar, nothing blocks".into(),
+        rule: "a cold synchronous source behind subscribe_on / delay_subscription (the emission runs inside the pool task) against an unsubscribing thread: what is delivered is a prefix of the source's sequence, the completion only after all items, nothing after unsubscribe() returned; observe_on_threads and delay_threads over a SubjectThreads with every scheduled notification its own controlled pool task (a k-worker pool that may run, and overlap, them in any order): one or two emitting threads, optionally a retain() on the source (which asks every subscriber is_finished()); every schedule within the preemption bound; oracle once every task has run: nothing invented or duplicated, and every item of a source that neither terminated nor was unsubscribed has been delivered (the order in which independent tasks deliver is engine E1's known finding and is not asserted here); no overlapping callbacks, grammar, nothing blocks".into(),
         bounds: json!({"preemptions": c}),
         assumptions: vec!["sequentially consistent memory".into()],
       })
@@ -2580,9 +2632,12 @@ pub fn plan(prop: &str, tier: Tier) -> Option<Plan> {
         sc.push(script_scenario("C02", shape, vec![vec![Op::NextA(1), Op::CompleteA], vec![Op::Unsubscribe]], Oracle::Unsub, if q { 1 } else { 2 }, CAP));
         sc.push(script_scenario("C02", shape, vec![vec![Op::NextA(1)], vec![Op::Unsubscribe]], Oracle::Unsub, c, CAP));
       }
+      for delayed in [false, true] {
+        sc.push(cold_subscribe_on_scenario("C02", delayed, c, CAP));
+      }
       Some(Plan {
         scenarios: sc,
-        rule: "SubjectThreads -> {nothing, merge, zip, combine_latest, take_until, with_latest_from, sample, skip_until, merge_all, share, finalize, observe_on, delay}_threads -> probe: one emitting thread (1-3 next, then a terminal) against one thread calling unsubscribe(); pool tasks of observe_on/delay are separate controlled tasks; every schedule within the preemption bound; oracle: no callback entry or exit is stamped after unsubscribe() returned".into(),
+        rule: "from_iter behind subscribe_on / delay_subscription cut by another thread while the pool task emits; SubjectThreads -> {nothing, merge, zip, combine_latest, take_until, with_latest_from, sample, skip_until, merge_all, share, finalize, observe_on, delay}_threads -> probe: one emitting thread (1-3 next, then a terminal) against one thread calling unsubscribe(); pool tasks of observe_on/delay are separate controlled tasks; every schedule within the preemption bound; oracle: no callback entry or exit is stamped after unsubscribe() returned".into(),
         bounds: json!({"preemptions": c}),
         assumptions: vec!["sequentially consistent memory".into()],
       })
